@@ -362,3 +362,19 @@ def arena_scenarios(tier, seed, which):
         S.append((["conc 4294967295 4 9", f"cthread i:{hx('abc')} i:{hx('de')}", f"cthread i:{hx('vwx')} i:{hx('yz')}"], [f"agen {seed + 4} {n * 2}"]))
         S.append((["conc 4294967295 10 15", f"cprefill {hx('12345678')}", f"cthread i:{hx('abcde')}", f"cthread i:{hx('vwxyz')}"], [f"agen {seed + 5} {n}", f"aexhaust {ex}"]))
     return S
+
+
+ARENA_TRUST = ["atomics on a sequentially consistent interleaving at the granularity of the schedule points of store_str / try_inc_length / allocate_memory / push_front (every atomic load, compare-exchange, the copy, the capacity store)",
+               "the global allocator (a fresh block never aliases a live one); Layout arithmetic; usize arithmetic is Nat",
+               "extractor's classification of atomic operations into roles (LassoModel/Source.lean AtomicRole)",
+               "harness controller and hook placement (f33c273)"]
+PROPS["C05"] = {
+    "streams": [conc_stream("C05", klass=1, scen_fn=arena_scenarios, tag="a")],
+    "trusted_base": ARENA_TRUST + ["C11 release/acquire semantics: the theorem checks the publication rule on the extracted ordering table; the memory model itself is not formalised (thorough tier runs Miri's race detector as a search aid)"],
+    "assumptions": ["strings reach other threads only through the interner's maps (C03)"],
+}
+PROPS["C09"] = {
+    "streams": [conc_stream("C09", klass=1, scen_fn=arena_scenarios, tag="a")],
+    "trusted_base": ARENA_TRUST,
+    "assumptions": ["the limit is fixed during a run in the model; set_memory_limit racing with interning is exercised by the harness only"],
+}
